@@ -40,7 +40,7 @@ CHECKS = {
     'C09': dict(cat='other', design='7/C09', text='Type spellings (Typename / Type / TemplatedType.to_cpp), qualification and keyword-argument / lambda-parameter agreement proved for all inputs; balance, '
                      'arity agreement, declared-before-use module variables and qualification checked on real output by a strict reader on the bounded scope. No compiler is run.',
                 note=BOUNDED_NOTE, technique=PY_TECH),
-    'C10': dict(cat='other', design='7/C10', text='Proved: the enumeration classdef text (enumerators in declared order numbered from 0). Bounded: the generated file tree and MEX preamble are compared with the entities declared by the reference semantics (classdefs in +package paths, function files, one MEX source, collectors, clean-up, RTTI) under both serialization settings.', note=BOUNDED_NOTE,
+    'C10': dict(cat='other', design='7/C10', text='Proved: the enumeration classdef text (enumerators in declared order numbered from 0), the MEX preamble as folds over the class list (generate_preamble: one collector and one clean-up block per non-ignored class, an RTTI entry exactly for the virtual ones), the properties block of a classdef (pointer property, then the declared properties in order) and the class naming helpers. Bounded: the generated file tree and MEX preamble are compared with the entities declared by the reference semantics (classdefs in +package paths, function files, one MEX source, collectors, clean-up, RTTI) under both serialization settings.', note=BOUNDED_NOTE,
                 technique='contract-based deductive verification (Python-ast -> SMT VCs, z3+cvc5) of the functions listed in the evidence; bounded stand-in (real output read back / reference oracle on a stated scope) for the rest'),
     'C12': dict(cat='other', design='7/C12', text='Exact: every composite grammar element carries the comment-ignore expression and skips white space; terminals spanning two tokens are the listed ones. '
                      'Bounded: seeded re-layouts (blanks, newlines, block/line comments with braces, semicolons, quotes) give equal trees and byte-identical wrappers.',
